@@ -25,6 +25,8 @@ Monitors (all attached from outside the repository):
 from __future__ import annotations
 
 import ast
+import contextlib
+import inspect
 import json
 import os
 import random
@@ -64,7 +66,7 @@ TECHNIQUE = ("runtime monitoring: exception / step-budget / loop-progress (sys.m
 REQUIRED_COUNTERS = ["parses_completed", "main_loop_header_events", "inner_loop_header_events", "reader_contract_evals",
                      "docstring_snapshots_compared", "parent_snapshots_compared", "module_snapshots_compared",
                      "sections_shape_checked", "sections_json_roundtrips", "text_identity_checked", "step_budgets_armed",
-                     "parser_none_route_checked"]
+                     "parser_none_route_checked", "edited_docstring_objects_parsed", "edited_vs_fresh_object_compared"]
 EXHAUSTIVE = {"quick": False, "thorough": False}
 ASSUMPTIONS = ["texts are sampled from the token-pool grammar described in the rule; the space of all strings is not covered",
                "step budget: function entries in _griffe <= STEP_FACTOR*(lines+10)^2 + STEP_PER_CHAR*len(text) (the second term "
@@ -590,7 +592,27 @@ def run_case(rec, case: dict, env: Env | None = None) -> None:  # noqa: ANN001, 
     kwargs = {"lineno": lineno, "endlineno": None if lineno is None else lineno + text.count("\n"), "parent": parent}
     if route == "parsed":
         kwargs.update(parser=style, parser_options=options)
-    ds = griffe.Docstring(text, **kwargs)
+    reuse = case.get("reuse")
+    if reuse:
+        # one Docstring object with a history: built around another text, read / parsed once, then edited the way an
+        # extension edits it (`docstring.value = ...`); everything below judges the edited object like a fresh one
+        ds = griffe.Docstring(reuse["first_text"], **kwargs)
+        try:
+            with case_watchdog(120):
+                for touch in reuse["touch"]:
+                    if touch == "lines":
+                        ds.lines  # noqa: B018
+                    elif touch == "parse":
+                        ds.parse(style, **{k: v for k, v in options.items() if k != gen.UNKNOWN_OPTION})
+                    elif touch == "source" and parent is not None:
+                        with contextlib.suppress(Exception):
+                            ds.source  # noqa: B018
+        except Exception:  # noqa: BLE001, S110
+            pass  # the first text is judged by its own case; here it only gives the object a past
+        ds.value = inspect.cleandoc(text.rstrip())  # `value` holds the cleaned text (what the constructor stores)
+        rec.count("edited_docstring_objects_parsed")
+    else:
+        ds = griffe.Docstring(text, **kwargs)
     snap = (ds.value, ds.lineno, ds.endlineno, ds.parser, dict(ds.parser_options))
     parent_before = parent.as_json() if parent is not None else None
     lines = ds.value.split("\n")
@@ -665,6 +687,17 @@ def run_case(rec, case: dict, env: Env | None = None) -> None:  # noqa: ANN001, 
             return
         if p:
             problem = (p[0], p[1], "a list of well-formed DocstringSection objects")
+    # history independence -------------------------------------------------------------------
+    if not problem and reuse:
+        try:
+            fresh = _call(route, style, options, griffe.Docstring(text, **kwargs))
+            rec.count("edited_vs_fresh_object_compared")
+            a = json.dumps(result, cls=griffe.JSONEncoder, sort_keys=True)
+            b = json.dumps(fresh, cls=griffe.JSONEncoder, sort_keys=True)
+            if a != b:
+                problem = ("parsing an edited docstring object differs from parsing a fresh object with the same text", a[:600], b[:600])
+        except Exception as exc:  # noqa: BLE001
+            problem = ("a fresh object with the same text raised where the edited object parsed", f"{type(exc).__name__}: {exc}"[:300], "same outcome")
     # text-only identity ---------------------------------------------------------------------
     if not problem and case.get("prose_only") and gen.is_prose_only(text) and ds.value.strip():
         expected_lines = lines
@@ -736,7 +769,13 @@ def run_shard(spec: dict, rec) -> None:  # noqa: ANN001
                     bits = "".join("1" if options.get(n) else "0" for n in gen.STYLE_BOOLS[style]) if options else "default"
                     rec.add_to_set(f"{style}_option_combinations", bits + ("+unknown" if gen.UNKNOWN_OPTION in options else ""))
                     rec.add_to_set("routes", route)
-                    run_case(rec, make_case(text, style, options, route, ref, lineno, prose), env)
+                    case = make_case(text, style, options, route, ref, lineno, prose)
+                    if rng.random() < 0.2:
+                        first = gen.prose_text(rng)[0] if rng.random() < 0.5 else gen.hostile_text(rng, big=False)
+                        touch = rng.sample(["lines", "parse", "source"], rng.randint(1, 3))
+                        if first != text:
+                            case["reuse"] = {"first_text": first, "touch": touch}
+                    run_case(rec, case, env)
             if ref is not None and ref[0] in env.parents:
                 rec.count("module_snapshots_compared")
                 if env.module(ref[0]).as_json() != module_before:
